@@ -210,7 +210,7 @@ func init() {
 	})
 
 	register(&Rule{
-		ID: "C04.R3", Props: []string{"C04", "C17", "C05"}, Min: 2,
+		ID: "C04.R3", Props: []string{"C04", "C17", "C05", "C10"}, Min: 2,
 		Doc: "scope storage ownership: the scope list (Stack.stack) is read or written only by methods of *Stack; the one deliberate exception (write-through of <template :x> bindings to the parent scope) restores the scope it removed, in the same straight-line block",
 		Run: func(p *Prog, c *Ctx) {
 			var stackField *types.Var
@@ -577,7 +577,7 @@ func init() {
 				}
 			}
 			// no later store of prop values: no Push/Set of the vars parameter after the front-matter loop
-			vars := fn.Params[3]
+			vars := paramOf(fn, "vars", 3, 5)
 			for _, site := range callsIn(fn) {
 				if site == push {
 					continue
@@ -592,11 +592,11 @@ func init() {
 	})
 
 	register(&Rule{
-		ID: "C05.R3", Props: []string{"C05"}, Min: 2,
+		ID: "C05.R3", Props: []string{"C05", "C12"}, Min: 2,
 		Doc: ":required is checked on every path that renders a <template> root: the loop that returns the 'required … not provided' error (a failed lookup in the component data leading to a non-nil error whose arguments name the missing key) dominates the evaluation of the template's children",
 		Run: func(p *Prog, c *Ctx) {
 			fn := p.MustFn("(*vuego.Vue).evalTemplate")
-			data := fn.Params[3]
+			data := paramOf(fn, "componentData", 3, 5)
 			var lk *ssa.Lookup
 			eachInstr(fn, func(in ssa.Instruction) {
 				if l, ok := in.(*ssa.Lookup); ok && l.X == data && l.CommaOk {
@@ -738,6 +738,14 @@ func init() {
 			c.check(errOK, "evalTemplate: missing → error", p.instrPos(lk), "a missing required name returns a non-nil error", "the failed presence test does not lead to a returned error")
 			c.check(named, "evalTemplate: error names the variable", p.instrPos(lk), "the error's arguments include the missing name", "the error returned for a missing required variable does not carry its name")
 			h := loopHeaderOf(lk.Block())
+			// (the loop over the attributes, when the names of one attribute are checked in a loop nested in it)
+			for h != nil {
+				outer := loopHeaderOf2(h)
+				if outer == nil {
+					break
+				}
+				h = outer
+			}
 			n := 0
 			for _, site := range callsIn(fn) {
 				if calleeName(site.Common()) != "(*vuego.Vue).evaluateChildren" {
@@ -958,7 +966,7 @@ func init() {
 		Doc: "fallback exactly when nothing was supplied: in the slot evaluator, no path on which a slot lookup (GetSlot) returned content reaches the evaluation of the <slot>'s own children",
 		Run: func(p *Prog, c *Ctx) {
 			fn := p.MustFn("(*vuego.Vue).evalSlot")
-			node := fn.Params[2]
+			node := paramOf(fn, "node", 2, 4)
 			var fallback []ssa.Instruction
 			for _, site := range callsIn(fn) {
 				cc := site.Common()
@@ -1525,11 +1533,13 @@ func init() {
 				undecided("anchor function (*vuego.Vue).replaceWithInclude not found, nor its former callers")
 			}
 			fn := hosts[0]
-			node := ssa.Value(fn.Params[1])
+			var node ssa.Value
 			var file ssa.Value
 			if isRole {
-				file = fn.Params[2]
+				node = paramOf(fn, "node", 1, 3)
+				file = paramOf(fn, "filename", 2, 3)
 			} else {
+				node = paramOf(fn, "node", 1, 2)
 				for _, lk := range registryLookups(fn) {
 					if refs := lk.v.Referrers(); refs != nil {
 						for _, u := range *refs {
